@@ -51,3 +51,5 @@ EQUIVALENT = [
     ('tsv delimiter test spelled the other way', U, "    delimiter = '\\t' if path.suffix == '.tsv' else ','\n    with path.open('w', newline='') as f:\n        if not data:", "    delimiter = ',' if path.suffix != '.tsv' else '\\t'\n    with path.open('w', newline='') as f:\n        if not data:"),
     ('recogniser via lstrip', U, "if isinstance(k, str) and (k.isdigit() or (k[:1] == '-' and k[1:].isdigit())):", "if isinstance(k, str) and (k.isdigit() or (k.startswith('-') and k[1:].isdigit())):"),
 ]
+BREAKING.append(('delimiter sniffed in the first kilobyte', U, "    with path.open('r') as f:\n        delimiter = '\\t' if '\\t' in f.readline() else ','\n    with path.open('r') as f:\n        reader = csv.reader(f, delimiter=delimiter)\n        # Skip the header.\n        field_names", "    with path.open('r') as f:\n        delimiter = '\\t' if '\\t' in f.read(1024) else ','\n    with path.open('r') as f:\n        reader = csv.reader(f, delimiter=delimiter)\n        # Skip the header.\n        field_names", ['C18.T3']))
+EQUIVALENT.append(('delimiter sniffed with next(f)', U, "    with path.open('r') as f:\n        delimiter = '\\t' if '\\t' in f.readline() else ','\n    with path.open('r') as f:\n        reader = csv.reader(f, delimiter=delimiter)\n        # Skip the header.\n        field_names", "    with path.open('r') as f:\n        delimiter = '\\t' if '\\t' in next(f) else ','\n    with path.open('r') as f:\n        reader = csv.reader(f, delimiter=delimiter)\n        # Skip the header.\n        field_names"))
